@@ -14,7 +14,7 @@ NCASES = (100, 1200)
 RULE = ("generator H (gen/histgen.py): a 5-file virtual workspace (two conftests, an imported helper module, two test "
         "modules) and 3-9 further full-text versions produced by structural edits (add/remove/rename/move fixtures, add "
         "tests incl. undeclared uses, break and repair syntax, re-send identical text, change a conftest's imports, empty "
-        "a file); at EVERY prefix the long-lived database is compared with a database built fresh from the latest valid "
+        "a file; close a document and open it again with the next version); at EVERY prefix the long-lived database is compared with a database built fresh from the latest valid "
         "version of each file: all persistent maps (dump) and go-to-definition at every usage, resolution, available "
         "fixtures, imported names, references, and the undeclared findings of the document changed last; non-trivial = "
         "history contains a removal, rename, break or import edit; distinct = distinct edit-kind sequence")
@@ -35,6 +35,11 @@ def make_case(cid, rnd, stdlib):
     latest, last_valid = {}, {}   # insertion-ordered: re-insert on update
     nq = 0
     for i, (p, text) in enumerate(h["versions"]):
+        if i >= 4 and p in latest and rnd.random() < 0.2:
+            # the document is closed and opened again (with this version: the text may have changed
+            # while it was closed, or be the very same text)
+            steps.append({"op": "close", "path": p})
+            h["tags"].append("close-reopen" + ("-same-text" if latest[p] == text else ""))
         steps.append({"op": "analyze", "path": p, "text": text})
         latest.pop(p, None)
         latest[p] = text
